@@ -118,7 +118,24 @@ def ends_in_newline(content, rec):
         return content.endswith(b'\n')
 
 
-def judge(recs, exc, short, neg, intact, case, obs, label):
+def f8a_shape(present, nl, indent):
+    """Is ``present`` (the content bytes that survived the cut) of the one
+    shape the unedited suite forces the reader to accept: it ends with the
+    section's own line ending, optionally followed by at most ``indent``
+    spaces of the next line's indentation?"""
+    if not present or not nl:
+        return False
+    k = present.rfind(nl)
+    if k < 0:
+        return False
+    tail = present[k + len(nl):]
+    if tail == b'':
+        return True
+    return (isinstance(indent, int) and indent > 0 and
+            len(tail) <= indent and tail.strip(b' ') == b'')
+
+
+def judge(recs, exc, short, neg, intact, case, obs, label, shape=None):
     """Prefix relation + error family."""
     if exc is not None and type(exc).__name__ != 'DiffXParseError':
         obs.violation('%s:non_parse_exception:%s' % (
@@ -143,8 +160,9 @@ def judge(recs, exc, short, neg, intact, case, obs, label):
                       a.startswith(b)):
                     # F8a is specifically a cut that leaves content ENDING in
                     # a line ending; content cut in mid-line must never pass
-                    rel = ('content_is_proper_prefix'
-                           if ends_in_newline(b, intact[i])
+                    ok_shape = shape[i] if shape is not None and \
+                        i < len(shape) else ends_in_newline(b, intact[i])
+                    rel = ('content_is_proper_prefix' if ok_shape
                            else 'content_cut_mid_line')
             mech = '%s:altered_section_yielded:short_read_accepted:%s:%s' % (
                 label, kind, rel)
@@ -186,8 +204,15 @@ def check_file(data, layout, obs, tag, rng=None, cut_stride=1):
                 cls = 'in_content'
         obs.count('cut:%s' % cls)
         n += 1
+        shape = []
+        for s in layout:
+            if 'coff' in s and s['coff'] < c < s['coff'] + s['clen']:
+                shape.append(f8a_shape(data[s['coff']:c], s.get('nl'),
+                                       s['options'].get('indent')))
+            else:
+                shape.append(False)
         ok = judge(recs, exc, short, neg, intact, {'file': data, 'cut': c},
-                   obs, 'truncation')
+                   obs, 'truncation', shape)
         if ok:
             obs.count('outcome:%s' % ('parse_error' if exc else 'normal_end'))
     obs.case(None, nontrivial=False, n=n)
@@ -292,8 +317,25 @@ def replay(case, obs):
     intact, exc, _ = common.read_records(data)
     obs.case(None, nontrivial=False)
     if 'cut' in case:
-        recs, exc, short, neg = run_reader(data[:case['cut']])
-        judge(recs, exc, short, neg, intact, case, obs, 'truncation')
+        from mon.oracle.newline import newline_bytes, detect_kind_bytes
+        c = case['cut']
+        recs, exc, short, neg = run_reader(data[:c])
+        secs, _ = scanner.scan(data)
+        shape = []
+        for s in secs:
+            ok = False
+            if 'coff' in s and s['coff'] < c < s['coff'] + len(s['raw']):
+                codec = s.get('codec')
+                try:
+                    kind = s['options'].get('line_endings') or \
+                        detect_kind_bytes(s['raw'], codec)
+                    ok = f8a_shape(data[s['coff']:c],
+                                   newline_bytes(kind, codec),
+                                   s['options'].get('indent'))
+                except Exception:
+                    ok = False
+            shape.append(ok)
+        judge(recs, exc, short, neg, intact, case, obs, 'truncation', shape)
     else:
         secs, _ = scanner.scan(data)
         sec = secs[case['section_index']]
